@@ -1180,6 +1180,16 @@ func ruleNoEOFTolerance(c *Ctx, r *Report, rule string) {
 				allowed[qname(it.obj)] = true
 			}
 		}
+		// … or the helper the reader goroutine hands the input to
+		walkCalls(m.Reader.Body, false, func(call *ast.CallExpr) {
+			if fn, ok := c.callee(call).(*types.Func); ok && fn.Pkg() != nil && fn.Pkg().Path() == bclPath {
+				for _, a := range call.Args {
+					if m.isFile(c, a) {
+						allowed[qname(fn)] = true
+					}
+				}
+			}
+		})
 		for _, f := range c.allFuncs() {
 			if lit, ok := f.Syntax().(*ast.FuncLit); ok && lit.Body == m.Reader.Body {
 				allowed[ssaFuncName(f)] = true
